@@ -555,7 +555,7 @@ class NDRouterAdvertisement (icmp_base):
     if buf_len is None: buf_len = len(raw)
 
     try:
-      o.hop_limit,flags,o.lifetime,o.reachable,o.retrans_time = \
+      o.hop_limit,flags,o.lifetime,o.reachable,o.retrans_timer = \
           struct.unpack_from("!BBHII", raw, offset)
       offset += 1 + 1 + 2 + 4 + 4
       offset,o.options = _parse_ndp_options(raw, prev, offset, buf_len)
@@ -578,10 +578,8 @@ class NDRouterAdvertisement (icmp_base):
     return f
 
   def pack (self):
-    o = '\x00' * 4 # _PAD4
-
-    o += struct.pack("!BBHII", self.hop_limit, self.flags, self.lifetime,
-        self.reachable, self.retrans_time)
+    o = struct.pack("!BBHII", self.hop_limit, self.flags, self.lifetime,
+        self.reachable, self.retrans_timer)
 
     for opt in self.options:
       o += opt.pack()
